@@ -76,9 +76,16 @@ for _n, _d in (("float", "f"), ("double", "f"), ("half", "f"), ("int", "i"), ("l
     TM[_n] = (lambda d: (lambda t: ops.to_dtype(t, d)))(_d)
 
 
-@tm("clone", "contiguous", "detach", "cpu", "cuda", "requires_grad_")
+@tm("clone", "contiguous", "cpu", "cuda", "requires_grad_")
 def _ident_copy(t, *a, **k):
     return ew(lambda x: x, [t])
+
+
+@tm("detach")
+def _detach(t):
+    r = ew(lambda x: x, [t])
+    r.requires_grad = False  # ghost grad-path flag cleared
+    return r
 
 
 @tm("item")
@@ -338,7 +345,9 @@ TF["count_nonzero"] = _count_nonzero
 
 
 @tm("mean")
-def _mean(t, dim=None, keepdim=False):
+def _mean(t, dim=None, keepdim=False, keepdims=None):
+    if keepdims is not None:
+        keepdim = keepdims
     s = reduce("sum", ops.to_dtype(t, "f"), dim, keepdim)
     if dim is None:
         n = ops._prod(t.shape)
@@ -458,9 +467,11 @@ TF["div"] = TM["div"]
 
 class NoGrad:
     def __enter__(self):
+        cur().no_grad_depth += 1
         return self
 
     def __exit__(self, *a):
+        cur().no_grad_depth -= 1
         return False
 
 
@@ -523,3 +534,30 @@ def _repeat(t, *sizes):
 
 
 TM["repeat"] = _repeat
+
+
+# torch.finfo(dtype).eps: a positive machine constant (symbolic: its value is irrelevant to the algebra)
+EPS = z3.Real("finfo_eps")
+
+
+class _Finfo:
+    eps = EPS
+    max = z3.Real("finfo_max")
+    min = z3.Real("finfo_min")
+    tiny = z3.Real("finfo_tiny")
+
+
+TF["finfo"] = lambda *a, **k: _Finfo()
+
+
+def _mse_loss(a, b, reduction="mean"):
+    d = binop("sub", a, b)
+    sq = binop("mul", d, d)
+    if reduction == "mean":
+        return _mean(sq)
+    if reduction == "sum":
+        return reduce("sum", sq)
+    return sq
+
+
+FN["mse_loss"] = _mse_loss
